@@ -239,8 +239,9 @@ type world struct {
 	panicStack string
 	harnessErr atomic.Value // string
 
-	stop chan struct{}
-	done chan struct{}
+	allSent chan struct{} // closed once every Emit of the run, closing markers included, has returned
+	stop    chan struct{}
+	done    chan struct{}
 }
 
 func (w *world) tick() int64 { return w.clk.Add(1) }
@@ -404,24 +405,19 @@ func (w *world) subActor(ss *subSpec, closeWG, readWG *sync.WaitGroup) {
 	defer readWG.Done()
 	sl := w.hist.Subs[ss.ID]
 	rng := w.r.Rand(15, uint64(w.spec.Idx), 200, uint64(ss.ID))
-	nEm := len(w.spec.Emitters)
 	w.waitEmitted(ss.StartAt)
 	var arg any
-	need := 0 // bitmask of types whose closing marker this subscriber will see
 	switch ss.Kind {
 	case kindTyped:
 		arg = typePtr[ss.Types[0]]
-		need = 1 << ss.Types[0]
 	case kindMulti:
 		var l []any
 		for _, t := range ss.Types {
 			l = append(l, typePtr[t])
-			need |= 1 << t
 		}
 		arg = l
 	default:
 		arg = event.WildcardSubscription
-		need = 1<<w.spec.NTypes - 1
 	}
 	var sub event.Subscription
 	var err error
@@ -452,18 +448,12 @@ func (w *world) subActor(ss *subSpec, closeWG, readWG *sync.WaitGroup) {
 	close(w.subscribed[ss.ID])
 	var once sync.Once
 	ch := sub.Out()
-	seen, reads := 0, 0
+	reads := 0
 	record := func(v any) {
 		st := w.tick()
 		typ, em, seq, okd := decode(v)
 		sl.Reads = append(sl.Reads, readRec{Typ: typ, Em: em, Seq: seq, Stamp: st, Decoded: okd})
 		reads++
-		if okd && em >= nEm { // closing marker of a type
-			seen |= 1 << typ
-			if seen&need == need && sl.SawAllAt == 0 {
-				sl.SawAllAt = w.tick()
-			}
-		}
 	}
 	doClose := func(reader bool) {
 		once.Do(func() {
@@ -515,6 +505,7 @@ func (w *world) subActor(ss *subSpec, closeWG, readWG *sync.WaitGroup) {
 	if early && ss.K == 0 {
 		trigger()
 	}
+	allSent := w.allSent
 	for {
 		full := cap(ch) > 0 && len(ch) == cap(ch)
 		select {
@@ -527,12 +518,33 @@ func (w *world) subActor(ss *subSpec, closeWG, readWG *sync.WaitGroup) {
 			if full {
 				sl.FullReads++
 			}
-			if seen&need == need || (early && reads >= ss.K) {
+			if early && reads >= ss.K {
 				trigger()
 			}
 			pace(rng, ss.Pace)
+		case <-allSent:
+			// Every Emit of the run (closing markers included) has returned and every Subscribe had
+			// returned before the markers were emitted. "An emit blocks rather than drops": whatever
+			// this subscription is to receive is in its buffer now. Empty it: the subscriber has then
+			// caught up, and only now (if it has not been closed earlier) is it closed.
+			allSent = nil
+		sweep:
+			for {
+				select {
+				case v, ok := <-ch:
+					if !ok {
+						sl.ChanClosedAt = w.tick()
+						return
+					}
+					record(v)
+				default:
+					break sweep
+				}
+			}
+			sl.CaughtUpAt = w.tick()
+			trigger()
 		case <-w.stop:
-			// end of the run: sweep what is still buffered (anything here was delivered)
+			// end of the run: anything still arriving was delivered to a closed subscription
 			for {
 				select {
 				case v, ok := <-ch:
@@ -567,8 +579,10 @@ func (w *world) drive() {
 		<-c
 	}
 	// closing markers: after every scripted Emit has returned and every Subscribe has returned, one more
-	// event per type is emitted by a fresh emitter. A subscriber that has read the markers of all its
-	// types has caught up with everything emitted before.
+	// event per type is emitted by a fresh emitter (an ordinary event for the oracle). Emitting it also
+	// waits for any retained-event replay still in progress for that type (the statement's "first
+	// receives": the replay precedes every later event), so once the markers' Emits have returned,
+	// everything any subscription is to receive has been handed to its channel.
 	nEm := len(w.spec.Emitters)
 	for t := 0; t < w.spec.NTypes; t++ {
 		lg := &w.hist.Emitters[nEm+t]
@@ -609,6 +623,7 @@ func (w *world) drive() {
 			return
 		}
 	}
+	close(w.allSent)
 	closeWG.Wait()
 	close(w.stop)
 	readWG.Wait()
@@ -625,7 +640,7 @@ type caseResult struct {
 }
 
 func newWorld(r *run.R, spec *caseSpec) *world {
-	w := &world{r: r, spec: spec, bus: eventbus.NewBus(), abort: make(chan struct{}), stop: make(chan struct{}), done: make(chan struct{})}
+	w := &world{r: r, spec: spec, bus: eventbus.NewBus(), abort: make(chan struct{}), allSent: make(chan struct{}), stop: make(chan struct{}), done: make(chan struct{})}
 	nEm := len(spec.Emitters)
 	w.emFinished = make([]atomic.Bool, nEm)
 	w.hist.NTypes = spec.NTypes
@@ -671,7 +686,7 @@ func runCase(r *run.R, spec *caseSpec, watchdog time.Duration) caseResult {
 			}
 		}
 		if len(stuck) == 0 {
-			stuck = []string{"no-bus-call-in-flight"}
+			stuck = []string{"no-bus-call-in-flight(reading-subscriber-never-got-the-closing-marker)"}
 		}
 		return caseResult{status: "stall", w: w, dump: dump, stuck: strings.Join(stuck, "+")}
 	}
@@ -759,14 +774,14 @@ func TestC15(t *testing.T) {
 func generated(r *run.R, n, procs0 int, race bool) {
 	levels := []int{procs0, 4, procs0, 2, procs0, 8, procs0, 1}
 	const block = 200
-	watchdog := 30 * time.Second
+	watchdog := 20 * time.Second
 	if race {
-		watchdog = 90 * time.Second
+		watchdog = 60 * time.Second
 	}
 	var mu sync.Mutex
 	var stalled []*caseSpec
 	var stallDump = map[int]string{}
-	sampleEvery := n / 4
+	sampleEvery := n/3 + 1
 	handle := func(spec *caseSpec, res caseResult, rerun bool) {
 		caseID := fmt.Sprintf("gen/%d", spec.Idx)
 		switch res.status {
@@ -828,12 +843,20 @@ func generated(r *run.R, n, procs0 int, race bool) {
 			if rerun {
 				r.Inconclusive(caseID, "watchdog fired once under load, the re-run alone completed")
 			}
-			if sampleEvery > 0 && spec.Idx%sampleEvery == 1 && len(res.w.hist.Emissions) <= 40 {
+			if r.SampleN() < 3 && spec.Idx%sampleEvery < 40 && len(spec.Subs) >= 2 && len(res.w.hist.Emissions) <= 30 {
 				r.Sample(map[string]any{"script": spec.render(), "history": res.w.hist.render()})
 			}
 		}
 	}
-	for b := 0; b*block < n && !r.TooMany(); b++ {
+	// Stall protocol: a script whose watchdog fired is re-run ALONE (nothing else running) with a doubled
+	// watchdog, up to soloRuns times (a completed solo run takes milliseconds); if it stalls again the
+	// stall is "repeated" and a violation, else the first stall is put down to load and is inconclusive.
+	// Bounded (matters only when something really deadlocks): at most maxRerun scripts are re-run, a block
+	// that already has several stalled scripts is cut short, generation ends after the first repeated stall or
+	// six first stalls.
+	const maxRerun, soloRuns = 3, 25
+	reruns, firstStalls := 0, 0
+	for b := 0; b*block < n && !r.TooMany() && r.Counter("cases_stalled_twice") < 1 && firstStalls < 6; b++ {
 		procs := levels[b%len(levels)]
 		if procs > procs0 {
 			procs = procs0
@@ -847,19 +870,37 @@ func generated(r *run.R, n, procs0 int, race bool) {
 		if hi > n {
 			hi = n
 		}
+		var blockStalls atomic.Int32
 		run.Parallel(hi-lo, workers, func(i int) {
 			idx := lo + i
 			caseID := fmt.Sprintf("gen/%d", idx)
-			if !r.Want(caseID) || r.TooMany() {
+			if !r.Want(caseID) || r.TooMany() || blockStalls.Load() >= 3 {
 				return
 			}
 			spec := genCase(r, idx)
 			spec.Procs = procs
-			handle(spec, runCase(r, spec, watchdog), false)
+			res := runCase(r, spec, watchdog)
+			if res.status == "stall" {
+				blockStalls.Add(1)
+			}
+			handle(spec, res, false)
 		})
-		// stalled cases are re-run alone (nothing else running) with a doubled watchdog
+		firstStalls += len(stalled)
 		for _, spec := range stalled {
-			handle(spec, runCase(r, spec, 2*watchdog), true)
+			if reruns >= maxRerun || r.TooMany() {
+				r.Inconclusive(fmt.Sprintf("gen/%d", spec.Idx), "watchdog fired; not re-run (re-run limit reached)")
+				continue
+			}
+			reruns++
+			var res caseResult
+			for k := 0; k < soloRuns; k++ {
+				res = runCase(r, spec, 2*watchdog)
+				r.Count("solo_reruns", 1)
+				if res.status != "ok" || len(res.findings) > 0 {
+					break
+				}
+			}
+			handle(spec, res, true)
 		}
 		stalled = nil
 	}
@@ -1028,7 +1069,7 @@ func oracleSelfCheck(r *run.R) {
 			{Em: 0, Seq: 3, Typ: 0, Call: 30, Ret: 31}, {Em: 1, Seq: 2, Typ: 1, Call: 32, Ret: 33}, {Em: 0, Seq: 4, Typ: 0, Call: 34, Ret: 35},
 			{Em: 2, Seq: 1, Typ: 0, Call: 72, Ret: 73}, {Em: 3, Seq: 1, Typ: 1, Call: 78, Ret: 79},
 		}
-		s := &subLog{ID: 0, Kind: kindMulti, Types: []int{0, 1}, Buf: 2, SubCall: 20, SubRet: 21, CloseCall: 100, CloseRet: 101, SawAllAt: 95}
+		s := &subLog{ID: 0, Kind: kindMulti, Types: []int{0, 1}, Buf: 2, SubCall: 20, SubRet: 21, CloseCall: 100, CloseRet: 101, CaughtUpAt: 95}
 		for i, k := range [][3]int{{0, 0, 2}, {0, 0, 3}, {1, 1, 2}, {0, 0, 4}, {0, 2, 1}, {1, 3, 1}} {
 			s.Reads = append(s.Reads, readRec{Typ: k[0], Em: k[1], Seq: k[2], Stamp: int64(40 + 2*i), Decoded: true})
 		}
@@ -1045,7 +1086,7 @@ func oracleSelfCheck(r *run.R) {
 		{"swapped", "order:multi", func(h *history) { s := h.Subs[0]; s.Reads[1], s.Reads[3] = s.Reads[3], s.Reads[1] }},
 		{"gap", "gap-before-close:multi", func(h *history) { s := h.Subs[0]; s.Reads = append(s.Reads[:1], s.Reads[2:]...) }},
 		{"lost-last", "lost-event:multi", func(h *history) { s := h.Subs[0]; s.Reads = append(s.Reads[:2], s.Reads[3:]...) }},
-		{"after-close", "delivered-after-close:multi", func(h *history) { s := h.Subs[0]; s.CloseCall, s.CloseRet, s.SawAllAt = 22, 23, 0 }},
+		{"after-close", "delivered-after-close:multi", func(h *history) { s := h.Subs[0]; s.CloseCall, s.CloseRet, s.CaughtUpAt = 22, 23, 0 }},
 		{"stale-plain", "stale-event-plain-type:multi", func(h *history) {
 			s := h.Subs[0]
 			s.Reads = append([]readRec{{Typ: 1, Em: 1, Seq: 1, Stamp: 39, Decoded: true}}, s.Reads...)
